@@ -49,6 +49,7 @@ type callResult struct {
 	Kind      string // ok | error | panic
 	Err       string
 	Out       map[string]*val.V
+	OutLate   map[string]*val.V // the same output objects, read again after the whole world has run
 	InBefore  map[string]*val.V
 	InAfter   map[string]*val.V
 	WChanged  string // first weight found changed after the call (serial mode)
@@ -491,6 +492,14 @@ func execute(c *Case, pol policy, attrib bool, checkState bool) *worldRun {
 			wr.yields = append(wr.yields, t.yields)
 		}
 		x.sch = nil
+	}
+	// the caller still holds every tensor it was given back: read them again now that everything has run
+	for ti := range x.results {
+		for ci := range x.results[ti] {
+			if r := &x.results[ti][ci]; r.outObjs != nil {
+				r.OutLate = snapAll(r.outObjs)
+			}
+		}
 	}
 	for _, lm := range x.models {
 		if lm.m == nil {
